@@ -1,9 +1,47 @@
-(* C09 — placeholder until the proofs land (the file must contain at least one theorem). *)
-From AV Require Import model.CFS_file proofs.CFS_file_proofs proofs.CFS_refine.
-Theorem C09_file_write_refines : forall mb, 1 <= mb -> forall fn p0 data,
-  WF fn -> hok fn p0 ->
-  let '(fn', p') := fn_write mb fn p0 data in
-  (content fn', off p') = AV.model.CFS_inst.s_write (content fn) (off p0) data /\ WF fn' /\ hok fn' p' /\
-  (forall q, hok fn q -> hok fn' q).
-Proof. exact write_hok. Qed.
-Print Assumptions C09_file_write_refines.
+(* C09 — saved manifests reproduce the tree and reference only blocks that were stored.
+   Property theorems only.  What is proved here is about the model's state and segments; that the
+   manifest *text* of every save loads back to exactly the live tree is judged on every observed
+   save by the boolean specification (loader model + listing comparison), see DESIGN.md. *)
+From Coq Require Import List Arith Bool String.
+From AV Require Import model.CFS_file model.CFS_tree model.CFS_inst model.C08_run model.CFS_bg model.CFS_run
+  proofs.CFS_file_proofs proofs.CFS_refine proofs.CFS_prov proofs.CFS_tree_proofs proofs.CFS_bg_proofs proofs.CFS_hist_proofs
+  proofs.CFS_escape_proofs.
+Import ListNotations.
+
+(* After ANY history (writes, truncates, flushes, saves that succeed or fail, background completions),
+   every stored segment of every file denotes a slice of a block that is in the model's block store
+   - i.e. that came with the initial state or was the data of a successful Keep write - with exactly
+   the bytes the segment claims and the recorded block size; and every flushing token still refers
+   to data that is a prefix-slice of what the pending write carries. *)
+Theorem C09_stored_segments_accounted : forall mb, 1 <= mb -> forall tab es,
+  BInv mb (bfinal mb tab (binit mb tab (fs_init (Conc mb))) es).
+Proof.
+  intros mb Hmb tab es. apply (bg_history_invariant mb Hmb tab es). apply (BInv_init mb Hmb).
+Qed.
+Print Assumptions C09_stored_segments_accounted.
+
+(* what that invariant says about one stored segment (so the statement above is not opaque) *)
+Theorem C09_stored_segment_meaning : forall mb st, BInv mb st ->
+  forall id b loc bsz boff, In (Sto b loc bsz boff) (file_segs mb (fsys mb st) id) ->
+  exists blk, nth_error (blocks mb st) loc = Some blk /\ List.length blk = bsz /\
+              b = firstn (List.length b) (skipn boff blk).
+Proof. intros mb st (_ & _ & _ & HS) id b loc bsz boff Hin. exact (HS id b loc bsz boff Hin). Qed.
+Print Assumptions C09_stored_segment_meaning.
+
+(* A save - successful or failed - leaves every file's content and the tree untouched, and the state
+   good, so buffered data stays intact and readable and a later save can be attempted. *)
+Theorem C09_save_keeps_data : forall mb, 1 <= mb -> forall tab st, BInv mb st ->
+  quiet mb st (fst (b_marshal mb tab st)).
+Proof. exact b_marshal_quiet. Qed.
+Print Assumptions C09_save_keeps_data.
+
+(* turning buffered segments into stored ones (one synchronous block write) never changes content *)
+Theorem C09_commit_keeps_data : forall mb, 1 <= mb -> forall st refs, BInv mb st ->
+  let '(st', _) := commit_sync mb st refs in abs mb (fsys mb st') = abs mb (fsys mb st) /\ BInv mb st'.
+Proof. exact commit_sync_ok. Qed.
+Print Assumptions C09_commit_keeps_data.
+
+(* names: manifestUnescape inverts manifestEscape for every byte string *)
+Theorem C09_escape_roundtrip : forall s, manifest_unescape (manifest_escape s) = s.
+Proof. exact unescape_escape. Qed.
+Print Assumptions C09_escape_roundtrip.
